@@ -738,6 +738,9 @@ func runFrame(fr *frame) {
 			if in.ninstr > in.cfg.MaxInstr {
 				in.abort("budget", "instruction budget %d exceeded", in.cfg.MaxInstr)
 			}
+			if in.path != nil && in.path.instrBound > 0 && in.ninstr > in.path.instrBound {
+				in.abort("violation", "more than %d interpreted instructions since vInstrBound: work not bounded on this input (natively: does not return)", in.path.instrBudget)
+			}
 			if visitInstr(fr, instrs[k]) == kReturn {
 				return
 			}
